@@ -15,6 +15,7 @@ import (
 	"crypto/ed25519"
 	"crypto/elliptic"
 	"crypto/rsa"
+	"crypto/sha256"
 	"fmt"
 	"io"
 	"log"
@@ -442,16 +443,16 @@ func (c *c05) policy(keys []*verifkit.SKey) {
 }
 
 type sctCase struct {
-	version    uint64
-	logID      [32]byte
-	ts         uint64
-	etype      uint64
-	cert       []byte
-	ikh        [32]byte
-	tbs        []byte
-	ext        []byte
-	hash, alg  int
-	sig        []byte
+	version   uint64
+	logID     [32]byte
+	ts        uint64
+	etype     uint64
+	cert      []byte
+	ikh       [32]byte
+	tbs       []byte
+	ext       []byte
+	hash, alg int
+	sig       []byte
 }
 
 func (s sctCase) objects() (ct.SignedCertificateTimestamp, ct.LogEntry) {
@@ -744,8 +745,23 @@ func (c *c05) ctutilPaths(keys []*verifkit.SKey) {
 		pem     string
 		precert bool
 	}
-	for _, sb := range []sub{{"cert", testdata.TestCertPEM + testdata.CACertPEM, false}, {"precert", testdata.TestPreCertPEM + testdata.CACertPEM, true}} {
-		chain, err := x509util.CertificatesFromPEM([]byte(sb.pem))
+	for _, sb := range []sub{{"cert", testdata.TestCertPEM + testdata.CACertPEM, false}, {"precert", testdata.TestPreCertPEM + testdata.CACertPEM, true},
+		{"precert-via-pre-issuer", "", true}} {
+		var chain []*x509.Certificate
+		var err error
+		if sb.pem != "" {
+			chain, err = x509util.CertificatesFromPEM([]byte(sb.pem))
+		} else {
+			// [precertificate, Precertificate Signing Certificate (CT EKU), final CA], generated with the standard library
+			for _, d := range verifkit.PreIssuerChain() {
+				var x *x509.Certificate
+				if x, err = x509.ParseCertificate(d); x509.IsFatal(err) {
+					break
+				}
+				err = nil
+				chain = append(chain, x)
+			}
+		}
 		if err != nil {
 			c.out.Fail("ctutil setup", err.Error())
 			continue
@@ -762,9 +778,16 @@ func (c *c05) ctutilPaths(keys []*verifkit.SKey) {
 				s := sctCase{ts: ts, etype: et, cert: cert, tbs: tbs, hash: 4, alg: sigAlgOf(k)}
 				copy(s.ikh[:], ikh)
 				s.sig = k.Sign(4, verifkit.SCTSigInput(0, ts, et, cert, ikh, tbs, nil))
-				for _, variant := range []string{"genuine", "ts+1", "sig-bit", "hash-other", "alg-other", "version=1", "extensions-added", "loginfo"} {
+				variants := []string{"genuine", "ts+1", "sig-bit", "hash-other", "alg-other", "version=1", "extensions-added", "loginfo"}
+				if sb.name == "precert-via-pre-issuer" {
+					variants = append(variants, "signed-over-pre-issuer-key-hash")
+				}
+				for _, variant := range variants {
 					m := s
 					switch variant {
+					case "signed-over-pre-issuer-key-hash": // the key hash of the signing certificate instead of the final CA's: must not verify
+						h := sha256.Sum256(chain[1].RawSubjectPublicKeyInfo)
+						m.sig = k.Sign(4, verifkit.SCTSigInput(0, ts, et, cert, h[:], tbs, nil))
 					case "ts+1":
 						m.ts++
 					case "sig-bit":
